@@ -67,7 +67,7 @@ func checkC04(cx *Ctx, r *Report) {
 
 	// --- sign before send ---------------------------------------------------------------------------
 	// (loginResponse's return discipline is C01's clause; here: stores after signing)
-	msgTypes := map[string]bool{"samlp.ResponseType": true, "saml.AssertionType": true, "md.EntityDescriptorType": true, "saml.SubjectType": true, "saml.ConditionsType": true, "saml.AttributeStatementType": true, "saml.AttributeType": true, "saml.SubjectConfirmationDataType": true, "md.IDPSSODescriptorType": true}
+	msgTypes := map[string]bool{"samlp.ResponseType": true, "saml.AssertionType": true, "md.EntityDescriptorType": true, "saml.SubjectType": true, "saml.ConditionsType": true, "saml.AttributeStatementType": true, "saml.AttributeType": true, "saml.SubjectConfirmationDataType": true, "md.IDPSSODescriptorType": true, "md.AttributeAuthorityDescriptorType": true, "md.OrganizationType": true, "md.ContactType": true, "md.KeyDescriptorType": true, "md.EndpointType": true}
 	isSign := func(c ssa.CallInstruction) bool {
 		if f := calleeOf(c); f != nil {
 			switch w.FuncKey(f) {
@@ -112,7 +112,7 @@ func checkC04(cx *Ctx, r *Report) {
 		r.Fail("R-ORDER", "#signing-sites", "", fmt.Sprintf("only %d signing call sites found in handler-reachable code", nSignSites))
 	}
 	// the handlers that pass a signed message along do not touch it
-	for _, hk := range []string{kCallback, "provider.(*IdentityProvider).loginResponse"} {
+	for _, hk := range []string{kCallback, "provider.(*IdentityProvider).loginResponse", kMeta} {
 		f := w.Func(hk)
 		if f == nil {
 			continue
@@ -125,6 +125,7 @@ func checkC04(cx *Ctx, r *Report) {
 		}
 		r.Check(bad == "", "R-ORDER", "passes-message-untouched:"+hk, w.FnPos(f), "no store to the message between signing and sending", hk+" "+bad)
 	}
+	cx.checkRedirectTarget(r, "R-VFG")
 	// signed metadata only after Create succeeded
 	if gm := w.Func("provider.(*Provider).GetMetadata"); gm != nil {
 		aps, ok := fx.atomPaths(gm, 4096)
@@ -164,6 +165,7 @@ func checkC04(cx *Ctx, r *Report) {
 	// attribute query: sign step precedes the single emit (chain)
 	if cx.requireC20(r) {
 		if k := cx.attrChain(newReport("tmp", "quick")); k != nil && k.sign != nil && k.userinfo != nil {
+			r.Check(k.sign.Kind == "WithLogicStep", "R-ORDER", "attr:sign-unconditional", k.sign.Pos, "the signing step runs for every query that reaches it", "the signing step of the attribute-query chain is a "+k.sign.Kind+": under its condition a Success assertion is sent unsigned")
 			r.Check(k.userinfo.Idx < k.sign.Idx && k.sign.Idx == len(k.ch.Steps)-1, "R-ORDER", "attr:sign-last", k.sign.Pos, "the signing step is the last step, after the response was built; the emit follows the chain", "the attribute-query response is not signed as the last step before it is emitted")
 		}
 	}
